@@ -307,7 +307,10 @@ def feature_parity(ctx: Ctx, py: PyProgram, rs: RustProgram, rows: dict, ok_base
     ctx.instance("C06.6/multibyte-feature", "ADCL/SBCL/DADL/DSBL: carry-in, direction, BCD, subtract - Python lift arguments vs Rust arms", 16, 16)
     # (b0) the Rust arms start every scratch value from a constant: no IL of the Python core may read a scratch register it has not
     #      written itself (rule shared with C07)
-    from .c07 import il_temps
+    from .c04 import decimal_adjust
+    decimal_adjust(ctx, rows, lifted, rule="C06.6/decimal-adjust")
+    from .c07 import il_temps, ret_page_rule
+    ret_page_rule(ctx, rs, "C06.5/ret-page", ": CALL mn; <jump to another 64 KiB page>; RET returns to the CALL-site page on the Rust core and to the RET page on the Python core")
     il_temps(ctx, py, cases=lifted, rule="C06.12", why=" - the Rust core computes the same instruction from a fresh local, so the cores diverge after any instruction that left a value in that register", floors=(1500, 2500))
     # (b2) flags each core may write, per opcode: may-effect analysis of the Rust arm (table row concrete, conditions on it pruned)
     #      vs the flag write set of the Python IL over all selector values
